@@ -8,16 +8,25 @@ AUDIT = ["Audit/C06.lean", "Audit/C06Sessions.lean", "Audit/C06Hyp.lean", "Audit
 LEVEL = "proof"
 MANIFEST = dict(
     text="Lean 4 theorems over code-shaped executable models of DataTracker::process_payload/advance_sequence, "
-         "Flow::process_packet and the legacy TCPStream::generic_process (uint32 wrap explicit): refinement of a "
-         "set-of-arrived-positions spec for all streams, all ISNs (wrap-around included) and all arrival histories, via "
-         "an abstract tracker over absolute positions and a simulation under the key map a -> (isn+a) mod 2^32. "
+         "Flow::process_packet (over the C07 model of the Flow state machine: update_state, SYN offset) and the legacy "
+         "TCPStream / TCPStreamFollower (generic_process, update, the session table keyed by the 4-tuple, the data / end "
+         "functors; uint32 wrap explicit): refinement of a set-of-arrived-positions spec for all streams, all ISNs "
+         "(wrap-around included) and all arrival histories, via an abstract tracker over absolute positions and a "
+         "simulation under the key map a -> (isn+a) mod 2^32; for the legacy follower a reachable-state invariant of the "
+         "session table, a projection theorem (every connection's session and functor calls are those of the "
+         "single-connection machine over its own packets, for every capture and every interleaving) and the "
+         "single-connection machine phase by phase composed with the legacy refinement (follower_interleaving); each "
+         "hypothesis of the main theorem shown necessary by a witness (Props/C06Hyp.lean). "
          "Tied to the code by differential correspondence on random/exhaustive arrival histories under ASan/UBSan "
-         "(DataTracker directly, Flow and TCPStreamFollower with real IP/TCP/RawPDU packets) and by a spec oracle "
-         "(the Lean spec itself, executable) evaluated on the implementation's own output.",
+         "(DataTracker directly, Flow with real IP/TCP/RawPDU packets incl. SYN / FIN / RST segments, TCPStreamFollower "
+         "with 2-4 interleaved scripted connections: functor trace + whole session table after every packet) and by a "
+         "spec oracle (the Lean spec itself, executable) evaluated on the implementation's own output.",
     note="Trusted: Lean kernel + standard axioms; hand-written models tied by correspondence (harness/c06_*.cpp); "
-         "std::map successor modelled order-theoretically; generator coverage bounds what the tie sees; long chunks "
-         "and the delivered payload are compared through length + FNV-1a 64.",
-    technique="Lean 4 proof (invariant + simulation/refinement over arrival histories) + model/impl correspondence",
+         "std::map successor modelled order-theoretically, std::map<StreamInfo,_> as an association list under the "
+         "equivalence of StreamInfo::operator< (proved to be equality of the four fields); generator coverage bounds what "
+         "the tie sees; long chunks and the delivered payload are compared through length + FNV-1a 64.",
+    technique="Lean 4 proof (invariant + simulation/refinement over arrival histories; projection of a multi-connection "
+              "state machine onto per-connection machines) + model/impl correspondence",
     design="DESIGN.md §6 C06")
 MANIFEST["note"] += (" Constants and limits of the C++ source that the model restates (translator/gen_limits.py -> Gen/Limits.lean: "
                      "compiled probe + preprocessed function bodies at named anchors) are tied to the model's numerals by the "
@@ -497,22 +506,44 @@ def run(chk):
             chk.violation("proof obligation no longer checks: " + p[:1500], ["theorem-or-audit-failure", p[:4000]], nofail=True)
     chk.cov["rule"] = ("cases = (stream, ISN, arrival history of segments cut from the stream incl. stale, duplicate, "
                        "overlapping, empty, exact retransmissions); each case runs on DataTracker directly, through "
-                       "Flow::process_packet and through TCPStreamFollower with real IP/TCP/RawPDU packets; "
-                       "distinct_nontrivial counts distinct (operation, implementation result) pairs")
+                       "Flow::process_packet (a third of the cases opened by a SYN, with SYN / FIN / RST / PSH segments) and through "
+                       "TCPStreamFollower with real IP/TCP/RawPDU packets; session cases = 2-4 scripted connections (same ports "
+                       "on swapped hosts, one port different, a third host; ISNs at and across the wrap; handshake, data both "
+                       "ways, FIN / RST with or without data, late packets, re-opened tuples, undeclared 4-tuples) interleaved "
+                       "through one follower; distinct_nontrivial counts distinct (operation, implementation result) pairs")
     chk.assumptions += [
         "std::map iterator successor is modelled order-theoretically (least greater key, else least key)",
         "payload equality with s.take k is compared through length + FNV-1a 64 in the run-time oracle",
-        "segments with |payload| >= 2^31 (vector::erase past the end, UB) are outside the property's hypothesis",
-        "theorem hypothesis: every segment starts less than 2^31 before the current delivery point (RFC 1982 leaves "
-        "the distance 2^31 undefined; `half_window_needed` shows the bound is sharp) and ends inside the stream",
+        "theorem hypotheses, each shown necessary by a witness in Props/C06Hyp.lean that is replayed on the real DataTracker on "
+        "every run (HYPOTHESIS_WITNESSES): (1) every segment starts less than 2^31 before the current delivery point (RFC 1982 "
+        "leaves the distance 2^31 undefined; half_window_needed / half_window_needed_nonempty: such a segment is buffered as if "
+        "it lay ahead); (2) it carries bytes of the stream (segment_agrees_needed) - which for a non-empty segment implies "
+        "that it ends inside the stream (agrees_gives_inside; segment_inside_needed: the empty segment beyond the end); "
+        "(3) |s| < 2^31 (stream_bound_needed, for every longer stream)",
+        "segments of 2^31 bytes and more are outside the hypothesis but are NOT undefined behaviour: both vector::erase calls of "
+        "process_payload stay in range for every payload size (erase_in_bounds); the end of such a segment compares as lying "
+        "before its start, an in-order one of more than 2^31 bytes is discarded whole (oversize_segment_dropped; run on the real "
+        "class with 2^31+1 bytes in the thorough tier, exactly 2^31 bytes are still delivered)",
         "byte counter compared exactly for streams <= 64 KiB (tracker_refines_spec) and modulo 2^32 for streams "
-        "< 2^31 (tracker_refines_spec_wide): the counter is a uint32_t",
+        "< 2^31 (tracker_refines_spec_wide): the counter is a uint32_t; exact iff the sum of the chunk sizes is < 2^32 "
+        "(byte_counter_exact_iff_small), for which 64 KiB is a sufficient bound, not the largest one",
+        "legacy follower: the two endpoints of a connection differ (Conn.OK.distinct; otherwise TCPStream::update sends both "
+        "directions to the client side) and two connections are distinct iff their unordered 4-tuples are (a tuple and its "
+        "reverse are the same session for TCPStreamFollower); fewer than 2^64 packets for pairwise distinct stream identifiers",
     ]
     chk.trusted += ["correspondence harnesses harness/c06_tracker.cpp, c06_flow.cpp, c06_legacy.cpp (the last built "
-                    "with -fno-access-control to print private per-direction state) + generators in checks/C06.py",
+                    "with -fno-access-control to print private per-direction state and the session table) + generators in "
+                    "checks/C06.py",
                     "g++ 12 / ASan+UBSan build of /repo's working tree"]
-    chk.extra["modelled_not_proved"] = ["TCPStreamFollower session table / handshake (driven, not modelled beyond "
-                                        "the two per-direction streams)", "Flow::update_state, AckTracker (C19)"]
+    chk.extra["modelled_not_proved"] = [
+        "legacy follower outside the scripted fragment (correspondence-only, generator `wild_script`): simultaneous open, data / "
+        "FIN / RST before the SYN+ACK (ignored: a refused connection keeps its session for ever - `handshake`), a second SYN+ACK, "
+        "a connection whose two endpoints are equal; follow_streams over a BaseSniffer (only the iterator-range overload is driven)",
+        "Flow::update_state itself and the AckTracker are C07 / C19 (TinsModel/Follower/Model.lean `Flow.updateState`, Props/C07, "
+        "Props/C19); C06 imports that model: flow_callbacks is stated over SF.Flow.processPacket in every state, "
+        "flow_update_state_tracker / flow_syn_opens say what update_state does to the reassembly state; recovery mode "
+        "(Flow with a recovery handler) is C07's recovery_skips_hole",
+    ]
     corr.finalize_cov(chk)
 
 
